@@ -403,11 +403,18 @@ def hash_table(ctx):
     R.check("C01-D5 hash table", set(got) == names, "table keys = names of the digest-algorithm enum", mod=sh.module,
             node=tnode, function=sh.fq, expected=f"{sorted(names)}", found=f"{sorted(got)}")
     hf = sh.methods["hash"]
+    # the attribute holding the algorithm name, by role: what the constructor stores its (first) parameter in
+    name_attrs = [App("attr:_hash_name", (SELF,))]
+    ini = sh.methods.get("__init__")
+    if ini is not None and len(ini.params()) >= 2:
+        for o_ in Evaluator(repo, inline_depth=0).outcomes(ini):
+            if o_.kind == "return":
+                name_attrs += [App("attr:" + k_[1], (SELF,)) for k_, v_ in o_.heap.items() if k_[0] == SELF and v_ == P(ini.params()[1])]
     outs = [o for o in Evaluator(repo, inline_depth=0).outcomes(hf) if o.kind == "return"]
     ok = len(outs) == 1 and isinstance(outs[0].value, App) and outs[0].value.op == "meth:hex" and isinstance(outs[0].value.args[0], App) \
         and outs[0].value.args[0].op == "hash" and outs[0].value.args[0].args[1] == P("bstr") \
         and isinstance(outs[0].value.args[0].args[0], App) and outs[0].value.args[0].args[0].op == "idx" \
-        and outs[0].value.args[0].args[0].args[1] == App("attr:_hash_name", (SELF,)) \
+        and outs[0].value.args[0].args[0].args[1] in name_attrs \
         and (outs[0].value.args[0].args[0].args[0] == t or outs[0].value.args[0].args[0].args[0].op.startswith("attr:"))
     R.check("C01-D5 hash table", ok, "hash(bstr) = Hash(table[name]).update(bstr).finalize().hex()", mod=hf.module, node=hf.node, function=ctx.fq(hf),
             expected="input fed unmodified to one update(); finalize() returned", found=repr(outs[0].value)[:200] if outs else "?")
